@@ -371,6 +371,10 @@ func runC04(c *Ctx, r *Report) {
 			}
 			want1 := map[string]string{"ChannelInput": lvl + ".Escalate", "ChannelResponse": lvl + ".EscalatePrompt", "HideInput": "false"}
 			want2 := map[string]string{"ChannelInput": ed + ".AuthSecondary", "ChannelResponse": lvl + ".Pattern", "HideInput": "true"}
+			// a field that is not set has its zero value
+			if ev1["HideInput"] == "" {
+				ev1["HideInput"] = "false"
+			}
 			for k, v := range want1 {
 				if ev1[k] != v {
 					okAuth = false
